@@ -31,6 +31,41 @@ theorem shared_errors_unchanged (app : App) (hist : List HReq) :
       sharedInit.map SharedErr.core :=
   foldl_core app hist AppState.init
 
+/-- `class_level_state_accounted`: the complete list of class-level and module-level mutable
+containers (dict / list / set valued) of the package, as extracted from the live modules — the
+only places besides the per-thread request / response objects where something could outlive a
+request.  Each is accounted for:
+* `DefaultConfig.errors_map` — the shared `HTTPError` objects: modelled (`AppState.shared`:
+  status, headers, cookies, body, traceback chain; `shared_errors_unchanged`, `retained_bounded`);
+* `error_render._html_lns` — filled on first use with the stripped lines of `error.html`
+  (`Gen.wsgiErrorPage` is that content), the same for every request;
+* `FilterFactory._filter_cache`, `FilterFactory.filters`, `Parser.param_delimiters_map`,
+  `server_adapters.*` — written when rules / servers are set up, not while serving;
+* `bad_headers` (`Gen.wsgiBadHeaders`), `_HTTP_STATUS_LINES` / `HTTP_CODES`
+  (`Gen.wsgiStatusLines`), `__hook_reversed` (`Gen.wsgiHookReversed`), `HTTP_METHODS`,
+  `cgikeys`, `_as_mixins`, `domain_map`, `RequestConfig.errors_map` — constants only read.
+The harness checks behaviourally (in a pristine process) that serving requests leaves every one
+of them unchanged.  A container added to (or removed from) the source makes this theorem fail and
+re-opens the obligation. -/
+theorem class_level_state_accounted :
+    Gen.wsgiClassMutables =
+      ["ombott.error_render:_html_lns:list",
+       "ombott.ombott:DefaultConfig.domain_map:dict",
+       "ombott.ombott:DefaultConfig.errors_map:dict",
+       "ombott.ombott:HTTP_METHODS:list",
+       "ombott.ombott:Ombott._Ombott__hook_reversed:set",
+       "ombott.request_pkg.helpers:WSGIHeaderDict.cgikeys:set",
+       "ombott.request_pkg.request:Request._as_mixins:list",
+       "ombott.request_pkg.request:RequestConfig.errors_map:dict",
+       "ombott.response:BaseResponse.bad_headers:dict",
+       "ombott.response:HTTP_CODES:dict",
+       "ombott.response:_HTTP_STATUS_LINES:dict",
+       "ombott.router.filter_factory:FilterFactory._filter_cache:dict",
+       "ombott.router.filter_factory:FilterFactory.filters:dict",
+       "ombott.router.parser:Parser.param_delimiters_map:dict",
+       "ombott.server_adapters:AutoServer.adapters:list",
+       "ombott.server_adapters:server_names:dict"] := by decide
+
 /-- the number of shared error objects, from the extracted `errors_map` -/
 theorem shared_count : sharedInit.length = 3 := by decide
 
